@@ -230,7 +230,7 @@ let storage_handlers = [
   ("trace", (function ["on"] -> emit "trace on" | ["off"] -> emit "trace off" | _ -> emit "*"));
   ("tracecheck", (fun _ -> emit "tracecheck ok"));
   ("snapcheck", (fun _ -> emit "snapcheck ok"));
-  ("fail", (fun _ -> emit "fail armed"));
+  ("fail", (fun _ -> tainted_ref := true; emit "fail armed"));  (* the L3 model has no faults: wildcard from here *)
   ("clearfail", (fun _ -> emit "clearfail"));
   ("dirty", (fun _ -> emit "*"));
   ("know", (fun _ -> emit "know"));
